@@ -265,6 +265,9 @@ def handle (op : String) (j : Json) : Except String Json := do
                       ("fold", excOr9 intJ (foldlExc (fun (acc : Int) (p : Int × Str) =>
                         (intParse p.2).bind (fun v => .ok (acc * 3 + v + p.1))) 1 ps))])
   -- --- end T9
+  -- --- T11: `sorted(xs)` of ints
+  | "t11_sorted" => pure (intsToJson (sortedInts (← listOfJson intOfJson (← field j "xs"))))
+  -- --- end T11
   | _ => throw s!"unknown prelude op {op}"
 
 end OQ.PY.Driver
